@@ -155,7 +155,9 @@ func (r *ComDoc) addStream(contents []byte, short bool) (SecID, error) {
 		}
 		contents = contents[n:]
 	}
-	sat[previous] = SecIDEndOfChain
+	if previous != SecIDEndOfChain {
+		sat[previous] = SecIDEndOfChain
+	}
 	if len(contents) > 0 {
 		panic("didn't allocate enough sectors")
 	}
